@@ -251,7 +251,13 @@ def extract_iter(
         else:
             # Only inserting new items into the stack trace; next_inner
             # is already at the front of `to_unwrap` (if it isn't None),
-            # at the depth where it was found, so don't queue it again
+            # so don't queue it again. It must not look deeper than the
+            # items we're inserting before it, or a frame found inside
+            # them could prune it; but it must not become deeper than it
+            # was either, or it could no longer prune its own callees.
+            if to_unwrap:
+                ni_origin, ni_item, ni_depth = to_unwrap.popleft()
+                to_unwrap.appendleft((ni_origin, ni_item, min(ni_depth, depth)))
             items = items[:-1]
         for item in reversed(items):
             to_unwrap.appendleft((better_origin(item, None), item, depth))
